@@ -69,6 +69,10 @@ HEAP_PROGS = [
     ("two binaries captured by one spawned closure", "#{ a = [0xaa, 0xbb] __binary_concat__, b = [0xcc, 0xdd] __binary_concat__, p = @#{ [a, b] }, !p }", "[0xaabb, 0xccdd]"),
     ("three captures, reordered", "#{ a = [0xaa, 0xbb] __binary_concat__, b = [0xcc, 0xdd] __binary_concat__, c = [0xee, 0xff] __binary_concat__, p = @#{ [c, a, b] }, !p }", "[0xeeff, 0xaabb, 0xccdd]"),
     ("captured binary plus binary argument", "#{ a = [0xaa, 0xbb] __binary_concat__, b = [0xcc, 0xdd] __binary_concat__, p = b @#'bin { [a, $] }, !p }", "[0xaabb, 0xccdd]"),
+    ("one binary both captured and passed as the argument of a spawned closure", "#{ a = [0xaa, 0xbb] __binary_concat__, p = a @#'bin { [a, $] }, !p }", "[0xaabb, 0xaabb]"),
+    ("argument dropped while the same binary is still captured, then a fresh allocation", "#{ a = [0xaabb, 0xccdd] __binary_concat__, p = a @#'bin { !#'int, b = [0x1111, 0x2222] __binary_concat__, [a, b] }, 1 p, !p }", "[0xaabbccdd, 0x11112222]"),
+    ("one binary captured under two names by a spawned closure", "#{ a = [0xaa, 0xbb] __binary_concat__, b = a, p = @#{ [a, b] }, !p }", "[0xaabb, 0xaabb]"),
+    ("a tuple holding one binary twice sent to a process", "#{ a = [0xaa, 0xbb] __binary_concat__, p = @#{ !#['bin, 'bin] }, [a, a] p, !p }", "[0xaabb, 0xaabb]"),
     ("scratch binaries dropped by calls", "#{ f = #'int { =n [0x01, 0x02] __binary_concat__ =scratch, n }, [1 f, 2 f, 3 f] }", "[1, 2, 3]"),
     ("result awaited twice", "#{ q = @#{ 1 }, p = @#{ [0xaa, 0xbb] __binary_concat__ }, x = !p, y = !p, [x, y] }", "[0xaabb, 0xaabb]"),
     ("consequence-less branch yielding a heap binary, then dropped", "#{ { | [0x01, 0x02] __binary_concat__ | 0x03 }, 1 }", "1"),
